@@ -2,6 +2,8 @@
 // the documentation; join() o split() round trip.
 #include "C19_common.hpp"
 
+#include <algorithm>
+
 #include <tlx/string/join.hpp>
 #include <tlx/string/split.hpp>
 
@@ -33,7 +35,40 @@ std::vector<std::string> ref_split(const std::string& sep, const std::string& st
     }
 }
 
+// *_long targets: limits / min_fields relative to the number of fields F an unlimited split produces (codes resolved by
+// resolve_rel() once the string is known), at the 8-bit boundary, and arbitrary large ones
+const size_t REL_BASE = npos - 16; // REL_BASE + d means F - 2 + d, d in 0..4
+size_t resolve_rel(size_t v, size_t fields) {
+    if (v == npos || v < REL_BASE) return v;
+    size_t d = v - REL_BASE;
+    return fields + d >= 2 ? fields + d - 2 : 0;
+}
+size_t gen_limit_long(pbt::Source& src) {
+    switch (src.range(0, 9)) {
+    case 0: return npos;
+    case 1: return (size_t)src.range(0, 8);
+    case 2: return 255 + (size_t)src.range(0, 2);
+    case 3: return REL_BASE + (size_t)src.range(0, 4);
+    case 4: return (size_t)src.range(9, 6000);
+    case 5: return (size_t)src.range(6000, 70000);
+    case 6: return npos - 1; // larger than any field count, but not the default value
+    case 7: return (size_t)1 << src.range(4, 40);
+    default: return REL_BASE + (size_t)src.range(0, 4);
+    }
+}
+size_t gen_min_fields_long(pbt::Source& src) {
+    switch (src.range(0, 5)) {
+    case 0: return 0;
+    case 1: return (size_t)src.range(1, 5);
+    case 2: return REL_BASE + (size_t)src.range(0, 4);
+    case 3: return 255 + (size_t)src.range(0, 2);
+    case 4: return (size_t)src.range(6, 7000);
+    default: return 0;
+    }
+}
+
 size_t gen_limit(pbt::Source& src) {
+    if (long_mode()) return gen_limit_long(src);
     switch (src.range(0, 5)) {
     case 0: return npos;
     case 1: return 0;
@@ -44,6 +79,7 @@ size_t gen_limit(pbt::Source& src) {
     }
 }
 size_t gen_min_fields(pbt::Source& src) {
+    if (long_mode()) return gen_min_fields_long(src);
     static const size_t M[] = {0, 1, 2, 3, 5};
     return M[src.range(0, 4)];
 }
@@ -112,9 +148,19 @@ void c19_split_join(pbt::Source& src) {
     int api = (int)src.range(0, 5);
     size_t limit = gen_limit(src);
     size_t min_fields = gen_min_fields(src);
-    if (api >= 4) limit = npos;
-    if (api != 2 && api != 3) min_fields = 0;
-    if (min_fields > limit) min_fields = limit; // "at least min_fields and at most limit": only consistent requests
+    // (the *_long targets draw limit / min_fields relative to the field count: resolved once the string is known)
+    auto fix_args = [&](const std::string& sep, const std::string& str) {
+        if (long_mode()) {
+            size_t fields = ref_split(sep, str, npos).size();
+            limit = resolve_rel(limit, fields), min_fields = resolve_rel(min_fields, fields);
+            if (min_fields > 80000) min_fields = 80000;
+            pbt::label(fields < 255 ? "fields:<255" : fields <= 257 ? "fields:255..257" : fields < 65535 ? "fields:258..65534" : "fields:>=65535");
+            if (limit != npos && limit > 8) pbt::label(limit > fields ? "limit:large,>fields" : limit == fields ? "limit:large,=fields" : "limit:large,<fields");
+        }
+        if (api >= 4) limit = npos;
+        if (api != 2 && api != 3) min_fields = 0;
+        if (min_fields > limit) min_fields = limit; // "at least min_fields and at most limit": only consistent requests
+    };
     static const char* const AL[6] = {"api:return(limit)", "api:into(limit)", "api:return(min,limit)", "api:into(min,limit)",
                                       "api:return()", "api:into()"};
 
@@ -123,7 +169,8 @@ void c19_split_join(pbt::Source& src) {
         static const char SEPS[] = {'/', ',', '\0', (char)0xFF, 'a', ' '};
         char sep = SEPS[src.range(0, 5)];
         std::string alphabet = std::string(1, sep) + sep + "ab" + std::string(1, '\0') + "/";
-        std::string str = gen_over(src, alphabet, src.chance(24) ? 40 : 12);
+        std::string str = gen_main(src, alphabet, src.chance(24) ? 40 : 12, 5000, HUGE_OK);
+        fix_args(std::string(1, sep), str);
         Buf sb(str);
         std::vector<std::string> want = ref_split(std::string(1, sep), str, limit);
         if (want.size() < min_fields) want.resize(min_fields), pbt::label("split-char:padded-to-min_fields");
@@ -142,7 +189,28 @@ void c19_split_join(pbt::Source& src) {
         std::string sep = src.chance(200) ? std::string(SEPS[src.range(0, 7)]) : gen_over(src, "ab", 3);
         if (sep.empty()) sep = "b"; // the empty separator has no documented meaning
         std::string alphabet = sep + sep + "c";
-        std::string str = gen_over(src, alphabet, src.chance(24) ? 40 : 14);
+        std::string str;
+        if (long_mode() && src.chance(128)) {
+            // long separator (4..300 letters, often self-overlapping); the string is a sequence of whole separators,
+            // proper prefixes / suffixes of it, single letters of it and 'c'
+            sep = gen_shaped(src, "ab", (size_t)(src.boolean() ? src.range(4, 20) : src.range(20, 300)));
+            size_t n = gen_long_len(src);
+            unsigned sep_w = 1 + (unsigned)src.range(0, 6);
+            Rng rng(src.bits(4));
+            while (str.size() < n) {
+                size_t r = rng.below(sep_w + 5);
+                if (r < sep_w) str += sep;
+                else if (r == sep_w) str += sep.substr(0, rng.below(sep.size()));
+                else if (r == sep_w + 1) str += sep.substr(1 + rng.below(sep.size() - 1));
+                else if (r == sep_w + 2) str += sep[rng.below(sep.size())];
+                else str += 'c';
+            }
+            if (src.boolean()) str.resize(n); // may cut the last separator short
+            pbt::label("split-str:long-separator");
+            label_len(str.size());
+        } else
+            str = gen_main(src, alphabet, src.chance(24) ? 40 : 14);
+        fix_args(sep, str);
         Buf sb(str), pb(sep);
         std::vector<std::string> want = ref_split(sep, str, limit);
         if (want.size() < min_fields) want.resize(min_fields), pbt::label("split-str:padded-to-min_fields");
@@ -168,6 +236,10 @@ void c19_split_join(pbt::Source& src) {
         }
         // parts normally over an alphabet disjoint from the separator (cannot contain or straddle it by construction);
         // sometimes separator letters are mixed in and the precondition is checked literally
+        if (long_mode() && str_sep && src.chance(100)) { // long glue: 4..300 letters
+            sep = gen_shaped(src, std::string("ab:, /") + (char)0xFF, (size_t)(src.boolean() ? src.range(4, 20) : src.range(20, 300)));
+            pbt::label("rt:long-separator");
+        }
         bool risky = str_sep && src.chance(96);
         std::string alphabet = "xyz";
         alphabet += '\0';
@@ -179,7 +251,32 @@ void c19_split_join(pbt::Source& src) {
             if (risky || sep.find(c) == npos) clean += c;
         size_t k = (size_t)src.range(1, 6);
         std::vector<std::string> parts;
-        for (size_t i = 0; i < k; ++i) parts.push_back(gen_over(src, clean, 5));
+        if (long_mode()) {
+            // scale classes: few long parts / hundreds to thousands (rarely > 65536) of short parts with now and then a
+            // long one; lengths and letters expanded from a drawn seed
+            int cls = (int)src.weighted({4, 3, 3, 3, 1});
+            if (cls == 0) {
+                for (size_t i = 0; i < k; ++i) parts.push_back(src.chance(160) ? gen_long(src, clean) : gen_over(src, clean, 5));
+            } else {
+                k = cls == 1 ? 255 + (size_t)src.range(0, 2) : cls == 2 ? (size_t)src.range(7, 300) : cls == 3 ? (size_t)src.range(300, 5000)
+                                                                                                              : 65535 + (size_t)src.range(0, 300);
+                size_t maxpart = (size_t)src.range(0, 6);
+                unsigned long_rate = cls == 4 ? 0 : 16u << src.range(0, 6);
+                if (cls == 4 && sep.size() > 4) sep.resize(4); // keep the joined string below ~1 MB
+                Rng rng(src.bits(4));
+                parts.resize(k);
+                for (std::string& f : parts) {
+                    size_t n = long_rate && rng.one_in(long_rate) ? 250 + rng.below(300) : rng.below(maxpart + 1);
+                    for (size_t i = 0; i < n; ++i) f += clean[rng.below(clean.size())];
+                }
+            }
+            size_t longest = 0;
+            for (const std::string& f : parts) longest = std::max(longest, f.size());
+            pbt::label(k <= 6 ? "rt:<=6-parts" : k < 255 ? "rt:7..254-parts" : k <= 257 ? "rt:255..257-parts"
+                       : k < 65535 ? "rt:258..5000-parts" : "rt:>=65535-parts");
+            if (longest >= 255) pbt::label("rt:part>=255-bytes");
+        } else
+            for (size_t i = 0; i < k; ++i) parts.push_back(gen_over(src, clean, 5));
         std::string ref_joined;
         std::vector<size_t> glue_pos;
         for (size_t i = 0; i < k; ++i) {
@@ -192,6 +289,7 @@ void c19_split_join(pbt::Source& src) {
         if (empty_part) pbt::label("rt:empty-part");
         if (k == 1) pbt::label("rt:single-part");
         PBT_LOG("join(" << show(sep) << ", " << show(parts) << ")\n");
+        if (long_mode()) label_len(ref_joined.size());
 
         // join: all glue overloads agree with plain concatenation
         Buf gb(sep, true);
@@ -205,9 +303,7 @@ void c19_split_join(pbt::Source& src) {
         bool pre = true;
         for (size_t p = 0; p + sep.size() <= ref_joined.size(); ++p)
             if (contains_at(ref_joined, p, sep)) {
-                bool is_glue = false;
-                for (size_t g : glue_pos) is_glue = is_glue || g == p;
-                pre = pre && is_glue;
+                pre = pre && std::binary_search(glue_pos.begin(), glue_pos.end(), p); // glue_pos is ascending
             }
         if (!pre) {
             pbt::label("rt:precondition-not-met(skipped)");
